@@ -195,13 +195,13 @@ OpImport(id, c, t, ttl) ==
   /\ (t = XC => ttl = Forever)
   /\ Log([op |-> "import", id |-> id, ctx |-> c, topic |-> t, ttl |-> ttl])
   /\ UNCHANGED <<gcq, clock, k, headKs, eph, lastApp, met>>
-  /\ LET conflict == id \in Ids /\ (stream[id].ctx # c \/ stream[id].topic # t)
+  /\ LET f == [topic |-> t, ctx |-> c, ttl |-> ttl, meta |-> M0, hash |-> M0]
+         conflict == id \in Ids /\ stream[id] # f
          rejected == t \in NulTopics \/ conflict
-         f == [topic |-> t, ctx |-> c, ttl |-> ttl, meta |-> M0, hash |-> M0]
      IN
      /\ bad' = bad \cup ImportVerdict(G, id, f, ~rejected)
      /\ IF rejected
-        THEN \* NUL topic, or another frame already lives under this id: rejected whole, nothing written
+        THEN \* NUL topic, or a different frame already lives under this id: rejected whole, nothing written
              UNCHANGED <<stream, idxT, idxC, acc, contexts, imported, owed, evictable, removed, gone>>
         ELSE /\ stream' = Put(stream, id, f)
              /\ idxT' = idxT \cup {<<c, t, id>>}
